@@ -165,6 +165,14 @@ class DiffOperator(operator.Operator, abc.ABC):
 
         if (not order1) and isinstance(order2, (bool, str)):
             order1 = order2
+        elif (
+            (not order1)
+            and isinstance(order2, (list, tuple, set))
+            and order2
+            and all(isinstance(item, str) for item in order2)
+        ):
+            # list of names: same as the single name
+            order1 = list(order2)
 
         if isinstance(order1, str):
             # single variable
